@@ -190,6 +190,9 @@ int flush_pubsub_msgs(void *data, const char *key, void *value) {
             evt_priv_t *msg = new_evt(mm->sub);
             if (msg && flushed) {
                 msg->evt.ps_evt = &mm->msg;
+                /* Same as any other event (see push_evt()): carry subscription's userdata, and a timestamp */
+                msg->evt.userdata = mm->sub ? mm->sub->userptr : NULL;
+                fetch_ms(&msg->evt.ts, NULL);
                 m_queue_enqueue(flushed, msg);
                 continue;
             }
